@@ -184,4 +184,4 @@ def sample_view(case):
 def parts(tier):
     quick = tier == "quick"
     return [HypPart(name="history", check=check, strategy=_case,
-                    examples=10 if quick else 300, seconds=50 if quick else 800)]
+                    examples=10 if quick else 300, seconds=50 if quick else 600)]
